@@ -46,6 +46,13 @@ SWITCHES = [
     ("switch", ((1, 0), (1, 1)), "last"),
     ("switch", ((1, 1),), "grouped"),   # case X: default: body
     ("switch", (), "only"),             # default only
+    ("switch", ((1, 1), (1, 1)), "grouped"),      # case A: body  case B: default: body
+    ("switch", ((1, 1), (2, 1)), "grouped"),
+    ("switch", ((1, 0), (1, 1), (1, 0)), None),   # two non-adjacent cases that are only 'break'
+    ("switch", ((1, 0), (1, 1), (1, 0)), "last"),
+    ("switch", ((1, 1), (1, 0), (1, 1)), None),
+    ("switch", ((2, 0), (1, 1)), None),
+    ("switch", ((1, 1), (1, 1), (1, 1)), "middle"),
 ]
 ALL_ITEMS = PLAIN + IFS + SWITCHES
 REDUCED_ITEMS = [PLAIN[0], PLAIN[3], IFS[0], IFS[6], IFS[12], IFS[17], IFS[20], SWITCHES[0], SWITCHES[2], SWITCHES[5], SWITCHES[7]]
@@ -168,6 +175,24 @@ def run_case(cid, case):
     elif hash(repr(cid)) % 500 == 0:
         res["sample"] = {"source": text, "output": out}
     return res
+
+
+def classify(v):
+    """Root cause grouping for known_findings.json (development time): which switch shapes are involved."""
+    import ast
+    try:
+        cid = ast.literal_eval(v["case_id"])
+    except Exception:
+        return None
+    combo = cid[1]
+    grouped_default_after_group = any(it[0] == "switch" and it[2] == "grouped" and len(it[1]) >= 2 for it in combo)
+    two_break_only = any(it[0] == "switch" and sum(1 for g in it[1] if g[1] == 0) >= 2 for it in combo)
+    if v["kind"] in ("jump-in-output", "op-count"):
+        if grouped_default_after_group:
+            return "C13-default-grouped-after-other-case"
+        if two_break_only:
+            return "C13-two-break-only-cases"
+    return None
 
 
 def run(tier, seed):
